@@ -1277,7 +1277,8 @@ def mangle_mako_loop(node, printer):
     node.accept_visitor(loop_variable)
     if loop_variable.detected:
         node.nodes[-1].has_loop_context = True
-        match = _FOR_LOOP.match(node.text)
+        # a header continued with a backslash is one logical line
+        match = _FOR_LOOP.match(re.sub(r"\\\r?\n", " ", node.text))
         if match:
             printer.writelines(
                 "loop = __M_loop._enter(%s)" % match.group(2),
